@@ -14,8 +14,8 @@
 EXTENDS Overlay, Json, IOUtils
 Rec == ndJsonDeserialize(IOEnv.TRACE)
 
-VARIABLES l, hasUpper, B, fresh, view, lowers, upraw, preup, digests, exp, lastop, div, nfail, overwh, pview
-vars == <<l, hasUpper, B, fresh, view, lowers, upraw, preup, digests, exp, lastop, div, nfail, overwh, pview>>
+VARIABLES l, hasUpper, B, fresh, view, lowers, upraw, preup, digests, exp, lastop, div, nfail, overwh, pview, slots
+vars == <<l, hasUpper, B, fresh, view, lowers, upraw, preup, digests, exp, lastop, div, nfail, overwh, pview, slots>>
 
 Viol(sig, detail) == PrintT(<<"VIOL", sig, l, detail>>)
 Markers == {"trusted.overlay.opaque", "user.overlay.opaque", "user.fuseoverlayfs.opaque"}
@@ -68,7 +68,7 @@ Resync(logged, base) ==
 
 Init == /\ l = 1 /\ hasUpper = TRUE /\ B = 1 /\ fresh = TRUE /\ view = EmptyTree /\ lowers = <<>>
         /\ upraw = EmptyTree /\ preup = EmptyTree /\ digests = [k \in 1..4 |-> ""]
-        /\ exp = Free(EmptyTree) /\ lastop = [op |-> "init", p |-> <<>>, st |-> 0, src |-> <<>>, ow |-> FALSE] /\ div = {} /\ nfail = 0 /\ overwh = {} /\ pview = EmptyTree
+        /\ exp = Free(EmptyTree) /\ lastop = [op |-> "init", p |-> <<>>, st |-> 0, src |-> <<>>, ow |-> FALSE] /\ div = {} /\ nfail = 0 /\ overwh = {} /\ pview = EmptyTree /\ slots = [k \in 0..2 |-> NoSlot]
 
 Layers == IF hasUpper THEN <<upraw>> \o lowers ELSE lowers
 
@@ -93,7 +93,7 @@ CheckView(rows, st) ==
      ELSE IF ~exp.free /\ ~ok /\ exp.ok THEN
             (IF logged = before THEN Viol(Sig("C10", "unexpected-failure"), <<lastop, st>>)
              ELSE Viol(Sig("C10", "unexpected-failure-and-changed-" \o DiffKind(logged, before)), <<lastop, st, DiffDetail(logged, before)>>))
-     ELSE IF ok THEN (IF logged = after THEN TRUE ELSE Viol(Sig("C10", "view-differs-" \o DiffKind(logged, after)), <<lastop, DiffDetail(logged, after)>>))
+     ELSE IF ok THEN (IF logged = after \/ logged = ProjView(exp.alt) THEN TRUE ELSE Viol(Sig("C10", "view-differs-" \o DiffKind(logged, after)), <<lastop, DiffDetail(logged, after)>>))
      ELSE IF logged # before THEN Viol(Sig("C10", "failed-but-changed-" \o DiffKind(logged, before)), <<lastop, st, DiffDetail(logged, before)>>)
      ELSE IF ~exp.free /\ exp.errs # {} /\ st \notin exp.errs THEN Viol(Sig("C10", "errno"), <<lastop, st, exp.errs>>)
      ELSE TRUE
@@ -134,49 +134,55 @@ Step ==
      CASE r.e = "Reset" ->
             /\ hasUpper' = r.upper /\ B' = r.B /\ fresh' = TRUE /\ view' = EmptyTree /\ lowers' = <<>>
             /\ upraw' = EmptyTree /\ preup' = EmptyTree /\ digests' = [k \in 1..4 |-> ""]
-            /\ exp' = Free(EmptyTree) /\ lastop' = [op |-> "init", p |-> <<>>, st |-> 0, src |-> <<>>, ow |-> FALSE] /\ div' = {} /\ nfail' = 0 /\ overwh' = {} /\ pview' = EmptyTree
+            /\ exp' = Free(EmptyTree) /\ lastop' = [op |-> "init", p |-> <<>>, st |-> 0, src |-> <<>>, ow |-> FALSE] /\ div' = {} /\ nfail' = 0 /\ overwh' = {} /\ pview' = EmptyTree /\ slots' = [k \in 0..2 |-> NoSlot]
        [] r.e = "Layers" ->
             /\ lowers' = [k \in DOMAIN r.lowers |-> TreeOf(r.lowers[k], TRUE)]
             /\ upraw' = TreeOf(r.upper, TRUE)
-            /\ UNCHANGED <<hasUpper, B, fresh, view, preup, digests, exp, lastop, div, nfail, overwh, pview>>
+            /\ UNCHANGED <<hasUpper, B, fresh, view, preup, digests, exp, lastop, div, nfail, overwh, pview, slots>>
        [] r.e = "BuildError" ->
             /\ TRUE = Viol("C10|init|build-error|initial", r)
-            /\ UNCHANGED <<hasUpper, B, fresh, view, lowers, upraw, preup, digests, exp, lastop, div, nfail, overwh, pview>>
+            /\ UNCHANGED <<hasUpper, B, fresh, view, lowers, upraw, preup, digests, exp, lastop, div, nfail, overwh, pview, slots>>
        [] r.e = "View" ->
             /\ TRUE = (IF fresh THEN CheckInitialView(r.rows) ELSE CheckView(r.rows, lastop.st))
             /\ view' = IF ~RowsOK(r.rows) THEN view
                        ELSE IF fresh THEN TreeOf(r.rows, FALSE)
                        ELSE Resync(TreeOf(r.rows, FALSE), IF lastop.st = 0 /\ lastop.op # "rename" THEN exp.v ELSE view)
-            /\ UNCHANGED <<hasUpper, B, fresh, lowers, upraw, preup, digests, exp, lastop, div, nfail, overwh, pview>>
+            /\ UNCHANGED <<hasUpper, B, fresh, lowers, upraw, preup, digests, exp, lastop, div, nfail, overwh, pview, slots>>
        [] r.e = "Restarted" ->
             /\ TRUE = CheckRestarted(r.rows)
             /\ div' = IF RowsOK(r.rows) THEN DiffPaths(ProjView(TreeOf(r.rows, FALSE)), ProjView(view)) ELSE div
-            /\ UNCHANGED <<hasUpper, B, fresh, view, lowers, upraw, preup, digests, exp, lastop, nfail, overwh, pview>>
+            /\ UNCHANGED <<hasUpper, B, fresh, view, lowers, upraw, preup, digests, exp, lastop, nfail, overwh, pview, slots>>
        [] r.e = "Lower" ->
             /\ TRUE = CheckLower(r)
             /\ digests' = IF digests[r.k] = "" THEN [digests EXCEPT ![r.k] = r.digest] ELSE digests
-            /\ UNCHANGED <<hasUpper, B, fresh, view, lowers, upraw, preup, exp, lastop, div, nfail, overwh, pview>>
+            /\ UNCHANGED <<hasUpper, B, fresh, view, lowers, upraw, preup, exp, lastop, div, nfail, overwh, pview, slots>>
        [] r.e = "UpperRaw" ->
             /\ TRUE = (IF fresh \/ lastop.op \in {"init", "rename"} THEN TRUE ELSE CheckCopyUp(TreeOf(r.rows, TRUE)))
             /\ upraw' = TreeOf(r.rows, TRUE) /\ fresh' = FALSE
-            /\ UNCHANGED <<hasUpper, B, view, lowers, preup, digests, exp, lastop, div, nfail, overwh, pview>>
+            /\ UNCHANGED <<hasUpper, B, view, lowers, preup, digests, exp, lastop, div, nfail, overwh, pview, slots>>
        [] r.e = "Op" ->
             /\ preup' = upraw
-            /\ exp' = AOp(view, OpOf(r), hasUpper, <<"n", ToString(l)>>)
-            /\ lastop' = [op |-> r.op, p |-> r.p, st |-> r.st, src |-> IF Has(r, "src") THEN r.src ELSE <<>>, ow |-> r.p \in overwh]
+            /\ exp' = IF r.op \in HandleOps THEN AHandleOp(view, slots, OpOf(r), hasUpper)
+                       ELSE AOp(view, OpOf(r), hasUpper, <<"n", ToString(l)>>)
+            \* a kept handle remembers the identity of the file it was opened on
+            /\ slots' = IF r.op = "open" /\ Has(r, "keep") /\ r.st = 0
+                         THEN [slots EXCEPT ![r.keep] = [id |-> IF r.p \in Paths THEN view[r.p].id ELSE <<>>, acc |-> r.acc]]
+                         ELSE IF r.op = "close" /\ r.st = 0 THEN [slots EXCEPT ![r.slot] = NoSlot]
+                         ELSE slots
+            /\ lastop' = [op |-> r.op, p |-> IF Has(r, "p") THEN r.p ELSE <<>>, st |-> r.st, src |-> IF Has(r, "src") THEN r.src ELSE <<>>, ow |-> Has(r, "p") /\ r.p \in overwh]
             /\ nfail' = IF r.st # 0 THEN nfail + 1 ELSE nfail
             \* history: directories made (successfully) by mkdir where the lower layers have an entry (which was hidden,
             \* normally by an upper whiteout), until they are removed
-            /\ overwh' = IF r.st # 0 \/ r.p \notin Paths THEN overwh
+            /\ overwh' = IF r.st # 0 \/ ~Has(r, "p") \/ r.p \notin Paths THEN overwh
                           ELSE IF r.op = "mkdir" /\ TopLower(lowers, r.p) \in {"file", "dir", "odir", "sym", "fifo"} THEN overwh \cup {r.p}
                           ELSE IF r.op \in {"rmdir", "unlink", "mkdir"} THEN {q \in overwh : q # r.p /\ ~IsAncestor(r.p, q)}
                           ELSE overwh
             /\ pview' = view
             /\ UNCHANGED <<hasUpper, B, fresh, view, lowers, upraw, digests, div>>
-       [] OTHER -> /\ TRUE = Viol("C10|event|unknown|-", r) /\ UNCHANGED <<hasUpper, B, fresh, view, lowers, upraw, preup, digests, exp, lastop, div, nfail, overwh, pview>>
+       [] OTHER -> /\ TRUE = Viol("C10|event|unknown|-", r) /\ UNCHANGED <<hasUpper, B, fresh, view, lowers, upraw, preup, digests, exp, lastop, div, nfail, overwh, pview, slots>>
   /\ l' = l + 1
 Done == l = Len(Rec) + 1 /\ PrintT(<<"ACCEPTED", Len(Rec)>>) /\ l' = l + 1
-        /\ UNCHANGED <<hasUpper, B, fresh, view, lowers, upraw, preup, digests, exp, lastop, div, nfail, overwh, pview>>
+        /\ UNCHANGED <<hasUpper, B, fresh, view, lowers, upraw, preup, digests, exp, lastop, div, nfail, overwh, pview, slots>>
 Next == Step \/ Done
 Spec == Init /\ [][Next]_vars
 =============================================================================
